@@ -18,8 +18,12 @@ package pathdb
 
 import (
 	"bytes"
+	"encoding/binary"
 	"errors"
 	"fmt"
+	"runtime"
+	"strings"
+	"sync/atomic"
 	"testing"
 	"time"
 
@@ -27,6 +31,7 @@ import (
 	"github.com/ethereum/go-ethereum/core/rawdb"
 	"github.com/ethereum/go-ethereum/ethdb"
 	"github.com/ethereum/go-ethereum/internal/verif/mc"
+	"github.com/ethereum/go-ethereum/log"
 	"github.com/ethereum/go-ethereum/trie"
 	"github.com/ethereum/go-ethereum/triedb/database"
 )
@@ -35,6 +40,14 @@ type c18Case struct {
 	Cfg      c17Cfg   `json:"cfg"`
 	Ops      []string `json:"ops"`
 	Rollback int      `json:"rollback"` // -1: none; otherwise the id of the state rolled back to, followed by a fork
+	// Index-pruner interleaving: after Ops a pruning scan (indexPruner.process at the history tail) is started in
+	// its own goroutine and held at its PrunerAt-th visited index entry (1-based; 0 = no scan) until the pause request of
+	// the next operation is pending; then Suffix (deltas, COMMIT, "RECOVER:<id>") is executed, the scan drained, and the
+	// usual oracle applied.
+	PrunerAt int      `json:"pruner_at,omitempty"`
+	Suffix   []string `json:"suffix,omitempty"`
+	// Check selects a dedicated scenario ("shorten-during-initial-indexing").
+	Check string `json:"check,omitempty"`
 }
 
 // c18NodeDB serves trie nodes of historical states through HistoricNodeReader.
@@ -286,6 +299,185 @@ func c18ReadTries(db *Database, root common.Hash, w *c17World) (error, error) {
 	return nil, nil
 }
 
+// ---------------------------------------------------------------------------------------------------------------
+// the index pruner as an explored background participant
+
+// c18HookStore is handed to an indexPruner whose scan runs in its own goroutine. Its iterators park the scan at the
+// at-th visited index entry (and at every later one): the scan only proceeds when a pause request of the indexer is
+// pending (the pause is then received at exactly that entry by the scan's select) or when the harness drains it.
+// Waiting is a spin on the channel length with Gosched (no sleeps; time is only read by a watchdog that turns a hang
+// of the harness into a harness error).
+type c18HookStore struct {
+	ethdb.KeyValueStore
+	at       int
+	visited  int
+	pruner   *indexPruner
+	parked   chan struct{} // closed when the scan reached the position for the first time
+	reached  bool
+	drain    atomic.Bool
+	timedOut atomic.Bool
+}
+
+func (s *c18HookStore) NewIterator(prefix []byte, start []byte) ethdb.Iterator {
+	return &c18HookIter{Iterator: s.KeyValueStore.NewIterator(prefix, start), s: s}
+}
+
+type c18HookIter struct {
+	ethdb.Iterator
+	s *c18HookStore
+}
+
+func (it *c18HookIter) Next() bool {
+	if !it.Iterator.Next() {
+		return false
+	}
+	s := it.s
+	s.visited++
+	if s.visited >= s.at {
+		if !s.reached {
+			s.reached = true
+			close(s.parked)
+		}
+		begin := time.Now()
+		for n := 0; len(s.pruner.pauseReq) == 0 && !s.drain.Load(); n++ {
+			runtime.Gosched()
+			if n%4096 == 4095 && time.Since(begin) > time.Minute {
+				s.timedOut.Store(true)
+				break
+			}
+		}
+	}
+	return true
+}
+
+// c18ScanPositions lists the entry positions (1-based, in scan order: account entries, then slot entries) at which a
+// pause of the pruning scan is explored: position 1 (nothing queued yet) and every position that follows, within the
+// same key prefix, an entry the scan queues for removal (all ids of the entry are below the new first history id).
+// Positions with an empty pending batch behave like position 1. Input selection only.
+func c18ScanPositions(in *c17Inst) (positions []int, stale int) {
+	tail, _ := in.db.stateFreezer.Tail(rawdb.DefaultHistoryGroup)
+	if tail == 0 {
+		return nil, 0
+	}
+	n := 0
+	for _, prefix := range [][]byte{rawdb.StateHistoryAccountMetadataPrefix, rawdb.StateHistoryStorageMetadataPrefix} {
+		it := in.kv.NewIterator(prefix, nil)
+		queued := false
+		for it.Next() {
+			n++
+			if n == 1 || queued {
+				positions = append(positions, n)
+			}
+			// single-block indexes: the first 8 bytes of the metadata are the maximum id of the entry
+			if v := it.Value(); len(v) >= 8 && binary.BigEndian.Uint64(v[:8]) < tail+1 {
+				queued = true
+				stale++
+			}
+		}
+		it.Release()
+	}
+	return positions, stale
+}
+
+// interleavePruner starts a pruning scan at the current history tail, holds it at entry c.PrunerAt, executes the suffix
+// operations on this goroutine (their pause requests are served by the parked scan) and drains the scan.
+func (run *c18Run) interleavePruner(c c18Case) error {
+	in := run.in
+	ix := in.db.stateIndexer
+	tail, err := ix.freezer.Tail(rawdb.DefaultHistoryGroup)
+	if err != nil {
+		return err
+	}
+	store := &c18HookStore{KeyValueStore: in.disk, at: c.PrunerAt, parked: make(chan struct{})}
+	pruner := &indexPruner{
+		disk:     store,
+		typ:      typeStateHistory,
+		trigger:  make(chan struct{}, 1),
+		closed:   make(chan struct{}),
+		log:      log.New("type", "state-pruner-under-test"),
+		pauseReq: make(chan chan struct{}, 1), // capacity 1: a pending pause request is observable by the hook
+		resumeCh: make(chan struct{}),
+	}
+	store.pruner = pruner
+	ix.pruner.close()
+	ix.pruner = pruner
+	errCh := make(chan error, 1)
+	stopServe := make(chan struct{})
+	served := make(chan struct{})
+	go func() {
+		defer close(served)
+		errCh <- pruner.process(tail + 1)
+		// the scan is over: behave like the idle loop of indexPruner.run (acknowledge pauses immediately)
+		for {
+			select {
+			case ack := <-pruner.pauseReq:
+				close(ack)
+				select {
+				case <-pruner.resumeCh:
+				case <-stopServe:
+					return
+				}
+			case <-stopServe:
+				return
+			}
+		}
+	}()
+	defer func() {
+		close(stopServe)
+		<-served
+	}()
+	select {
+	case <-store.parked:
+	case err := <-errCh:
+		store.drain.Store(true)
+		if err != nil {
+			return fmt.Errorf("index pruner: %v", err)
+		}
+		run.r.Outcome("pruner:position-beyond-scan")
+		return nil
+	}
+	run.r.Outcome("pruner:scan-parked")
+	var opErr error
+	for k, op := range c.Suffix {
+		if strings.HasPrefix(op, "RECOVER:") {
+			var id int
+			fmt.Sscanf(op, "RECOVER:%d", &id)
+			if !in.db.Recoverable(in.roots[id]) {
+				opErr = fmt.Errorf("harness: suffix rollback target %d is not recoverable", id)
+				break
+			}
+			if err := in.db.Recover(in.roots[id]); err != nil {
+				opErr = fmt.Errorf("Recover(state %d) while the index pruner scan is in progress: %v", id, err)
+				break
+			}
+			run.epoch++
+			in.roots, in.worlds = in.roots[:id+1], in.worlds[:id+1]
+			continue
+		}
+		if ok, err := in.run([]string{op}); err != nil || !ok {
+			if !ok {
+				opErr = errors.New("harness: suffix contains a disabled delta")
+			} else {
+				opErr = fmt.Errorf("suffix op %d (%s) while the index pruner scan is in progress: %v", k, op, err)
+			}
+			break
+		}
+	}
+	store.drain.Store(true)
+	scanErr := <-errCh
+	if store.timedOut.Load() {
+		return errors.New("harness: parked pruner scan was neither paused nor drained within a minute")
+	}
+	if opErr != nil {
+		return opErr
+	}
+	if scanErr != nil {
+		return fmt.Errorf("index pruner scan: %v", scanErr)
+	}
+	run.record()
+	return run.verify(true, true, true, fmt.Sprintf("after suffix %v executed while the index pruner scan was held at entry %d", c.Suffix, c.PrunerAt))
+}
+
 // c18Sub is the case key under which wrong values served by a long-lived reader that survived a rollback are reported.
 type c18Sub struct {
 	Cfg      c17Cfg   `json:"cfg"`
@@ -315,7 +507,7 @@ func c18Both(r *mc.R, c c18Case, reportStale bool) {
 	}
 	r.Case(c, func() error { run(); return mainErr })
 	if c.Rollback >= 0 && reportStale {
-		r.Case(c18Sub{c.Cfg, c.Ops, c.Rollback, "old-reader-across-rollback"}, func() error { run(); return abErr })
+		r.Case(c18Sub{Cfg: c.Cfg, Ops: c.Ops, Rollback: c.Rollback, Check: "old-reader-across-rollback"}, func() error { run(); return abErr })
 	}
 }
 
@@ -351,6 +543,11 @@ func c18Check(r *mc.R, c c18Case) (error, error) {
 	}
 	if err := step(c.Ops, "history"); err != nil {
 		return err, run.abandoned
+	}
+	if c.PrunerAt > 0 {
+		if err := run.interleavePruner(c); err != nil {
+			return err, run.abandoned
+		}
 	}
 	if c.Rollback >= 0 {
 		if !in.db.Recoverable(in.roots[c.Rollback]) {
@@ -440,6 +637,95 @@ func c18Check(r *mc.R, c c18Case) (error, error) {
 	return nil, run.abandoned
 }
 
+// c18IniterWitness: a rollback arriving while the background initer has not finished (node still syncing, so the
+// newest history is not indexed yet). The indexer is re-created exactly as Database.setHistoryIndexer does on a
+// restart (newHistoryIndexer with noWait=false and no chain head => the initer stays in the syncing state and idles).
+func c18IniterWitness(r *mc.R, cfg c17Cfg) error {
+	in := c17NewInst(cfg)
+	defer in.close()
+	if _, err := in.run([]string{"A+", "A+", c17Commit}); err != nil {
+		return err
+	}
+	// "restart": histories 1..2 exist and are indexed (metadata.Last=2), the indexers start again during sync
+	in.db.stateIndexer.close()
+	in.db.stateIndexer = newHistoryIndexer(in.disk, in.db.stateFreezer, in.db.tree.bottom().stateID(), typeStateHistory, false)
+	if in.db.trienodeIndexer != nil {
+		in.db.trienodeIndexer.close()
+		in.db.trienodeIndexer = newHistoryIndexer(in.disk, in.db.trienodeFreezer, in.db.tree.bottom().stateID(), typeTrienodeHistory, false)
+	}
+	// one more block is imported (history 3 is written, the syncing initer only extends its target) ...
+	if _, err := in.run([]string{"B+", c17Commit}); err != nil {
+		return fmt.Errorf("extension while the initer is syncing: %v", err)
+	}
+	// ... and reverted again
+	if !in.db.Recoverable(in.roots[2]) {
+		return errors.New("state 2 is not recoverable")
+	}
+	if err := in.db.Recover(in.roots[2]); err != nil {
+		dl := in.db.tree.bottom()
+		return fmt.Errorf("Recover(state 2) of a history that was written but not yet indexed (initer syncing, index metadata last=2, histories 1..3) fails: %v; "+
+			"disk layer afterwards: id=%d stale=%v", err, dl.stateID(), dl.stale)
+	}
+	in.roots, in.worlds = in.roots[:3], in.worlds[:3]
+	if err := c17VerifyWorld(in, in.roots[2], in.worlds[2], in.db.tree.bottom().buffer.empty()); err != nil {
+		return fmt.Errorf("state after the rollback: %v", err)
+	}
+	if _, err := in.run([]string{"A+", c17Commit}); err != nil {
+		return fmt.Errorf("re-extension after the rollback: %v", err)
+	}
+	r.Outcome("initer:shorten-while-syncing-ok")
+	return nil
+}
+
+// c18PrunerCases enumerates the index-pruner interleavings for one configuration: every base history of exactly
+// limit+1 transitions followed by Commit whose history tail has moved and which leaves at least one stale index entry
+// (a key only touched by pruned histories), every suffix {enabled delta + Commit, rollback to every recoverable state}
+// and every scan position after a queued removal (plus position 1).
+func c18PrunerCases(r *mc.R, cfg c17Cfg, hists [][]string) []c18Case {
+	var out []c18Case
+	n := int(cfg.Hist) + 1
+	for _, h := range hists {
+		if len(h) != n+1 || h[n] != c17Commit {
+			continue
+		}
+		w := c17World{}
+		ok := true
+		for k, op := range h[:n] {
+			if op == c17Commit {
+				ok = false
+				break
+			}
+			w, _ = c17Step(w, op, uint64(k+1))
+		}
+		if !ok {
+			continue
+		}
+		// scan positions worth exploring (input selection only)
+		in := c17NewInst(cfg)
+		_, err := in.run(h)
+		positions, stale := c18ScanPositions(in)
+		in.close()
+		if err != nil || stale == 0 {
+			continue // errors are reported by the main grid; without a stale entry the scan queues nothing
+		}
+		var suffixes [][]string
+		for _, d := range c17Deltas {
+			if _, ok := c17Step(w, d, uint64(n+1)); ok {
+				suffixes = append(suffixes, []string{d, c17Commit})
+			}
+		}
+		for id := 1; id <= int(cfg.Hist); id++ {
+			suffixes = append(suffixes, []string{fmt.Sprintf("RECOVER:%d", id)})
+		}
+		for _, sfx := range suffixes {
+			for _, at := range positions {
+				out = append(out, c18Case{Cfg: cfg, Ops: h, Rollback: -1, PrunerAt: at, Suffix: sfx})
+			}
+		}
+	}
+	return out
+}
+
 func TestVerif_C18(t *testing.T) {
 	mc.Run(t, "C18", func(r *mc.R) {
 		old := maxDiffLayers
@@ -498,14 +784,41 @@ func TestVerif_C18(t *testing.T) {
 		var special []c18Case
 		for _, cfg := range cfgs {
 			cfg.RealIniter = true
-			special = append(special, c18Case{cfg, []string{"A+", c17Commit}, 0}, c18Case{cfg, []string{"A.k0=1", "A.k0=2", "A!", c17Commit}, -1})
+			special = append(special, c18Case{Cfg: cfg, Ops: []string{"A+", c17Commit}, Rollback: 0}, c18Case{Cfg: cfg, Ops: []string{"A.k0=1", "A.k0=2", "A!", c17Commit}, Rollback: -1})
 			// long-lived readers across a rollback + different fork: asserted on the shortest history per configuration
 			cfg.RealIniter = false
-			special = append(special, c18Case{cfg, []string{"A+", "A+", c17Commit}, 1})
+			special = append(special, c18Case{Cfg: cfg, Ops: []string{"A+", "A+", c17Commit}, Rollback: 1})
 		}
 		r.Parallel(len(special), func(i int) {
 			c := special[i]
 			c18Both(r, c, true)
+		})
+		// a rollback while the background initer is still syncing (one dedicated scenario per configuration)
+		r.Parallel(len(cfgs), func(i int) {
+			c := c18Case{Cfg: cfgs[i], Ops: []string{"A+", "A+", c17Commit, "B+", c17Commit}, Rollback: 2, Check: "shorten-during-initial-indexing"}
+			r.Case(c, func() error { return c18IniterWitness(r, c.Cfg) })
+		})
+		// the index pruner as a background participant: history limit 2, scan started at the tail and
+		// held at every entry while the next operation lands
+		var pcfgs []c17Cfg
+		// (limit 2 is the smallest limit with which tail truncation happens: with limit 1 the first retained id would
+		// always exceed the persistent state id and writeHistory skips the truncation)
+		pcfgs = append(pcfgs, c17Cfg{Hist: 2, Buffer: 0, Trie: -1, Index: true})
+		if r.Thorough() {
+			pcfgs = append(pcfgs, c17Cfg{Hist: 2, Buffer: 1 << 20, Trie: 2, Index: true}, c17Cfg{Hist: 2, Buffer: 0, Trie: 2, Index: true})
+		}
+		allHists := c17Histories(3, 1)
+		var pcases []c18Case
+		for _, cfg := range pcfgs {
+			pcases = append(pcases, c18PrunerCases(r, cfg, allHists)...)
+		}
+		r.Bound("pruner_interleaving_cases", len(pcases))
+		r.Parallel(len(pcases), func(i int) {
+			c18Both(r, pcases[i], false)
+			r.DistinctHash(mc.Hash64(fmt.Sprint(pcases[i])))
+			if i%211 == 0 {
+				r.Sample(pcases[i])
+			}
 		})
 		r.Parallel(len(hists), func(i int) {
 			// number of transitions and position of the disk layer (maxDiffLayers=1)
@@ -532,13 +845,13 @@ func TestVerif_C18(t *testing.T) {
 					if rb >= 0 && cfg.Hist != 0 && uint64(rb)+cfg.Hist < uint64(disk) {
 						continue
 					}
-					c := c18Case{cfg, hists[i], rb}
+					c := c18Case{Cfg: cfg, Ops: hists[i], Rollback: rb}
 					c18Both(r, c, false)
 					r.DistinctHash(mc.Hash64(fmt.Sprint(c)))
 				}
 			}
 			if i%97 == 0 {
-				r.Sample(c18Case{cfgs[i%len(cfgs)], hists[i], -1})
+				r.Sample(c18Case{Cfg: cfgs[i%len(cfgs)], Ops: hists[i], Rollback: -1})
 			}
 		})
 	})
